@@ -7,27 +7,10 @@ the counting-allocator run and `cargo build --no-default-features` in the check,
 -/
 import CfavmlModel.Gen.RefTables
 import CfavmlModel.Spec.Names
+import CfavmlModel.Spec.NoStd
 
 namespace Cfavml.Thm.C14
 open Tables Spec
-
-/-- builds of the shipped library (not `cfg(test)`), with and without the `std` feature -/
-def noStdBuilds : List Build :=
-  [ { features := [], arch := .x86_64, targetFeatures := [], flags := [] },
-    { features := [.nightly], arch := .x86_64, targetFeatures := [], flags := [] },
-    { features := [], arch := .aarch64, targetFeatures := [], flags := [] },
-    { features := [], arch := .x86, targetFeatures := [], flags := [] } ]
-
-def stdBuilds : List Build :=
-  [ { features := [.std], arch := .x86_64, targetFeatures := [], flags := [] },
-    { features := [.std, .nightly], arch := .x86_64, targetFeatures := [], flags := [] },
-    { features := [.std], arch := .aarch64, targetFeatures := [], flags := [] } ]
-
-def compiledIn (b : Build) (r : ExternalRef) : Bool := r.cfg.all (·.eval b)
-
-/-- the only `std` items the shipped library may name, and only with the `std` feature: CPU detection -/
-def allowedStd : List String :=
-  ["std::arch::is_x86_feature_detected", "std::arch::is_aarch64_feature_detected"]
 
 /-- **C14 (a).** Nothing in the crate names `alloc`, and no `extern crate` exists. -/
 theorem no_alloc_refs : externalRefs.all (fun r => !r.path.startsWith "alloc" && r.kind != "extern-crate") = true := by
